@@ -556,7 +556,7 @@ impl Property for C17 {
         Isolation::Thread
     }
     fn cases(&self, tier: Tier) -> u32 {
-        tier.pick(12_000, 300_000)
+        tier.pick(20_000, 1_200_000)
     }
     fn strategy(&self, _tier: Tier) -> BoxedStrategy<Case> {
         let raw = (
